@@ -17,7 +17,7 @@ TRUSTED_BASE = [
 ASSUMPTIONS = [
     "closure state of to_filterable_hook is read through the interpreter's heap (cells of the enclosing frames): the representation invariant speaks about those cells",
 ]
-NOT_DECIDED = ["schema/test scope lookup inside APIOperation.as_strategy beyond apply_to_all_dispatchers' order"]
+NOT_DECIDED = ["what a user hook does with the strategy it is given (uninterpreted: hook_call / st_filter / st_map / st_flatmap)"]
 EXPLANATION = ("to_filterable_hook's closure variables are treated as a data structure with a representation invariant (the cell `filter_set` is the set that "
                "register.apply_to/skip_for write into, it is fresh and shared with no registered hook); every registration form must re-establish it and must give the hook "
                "exactly the filters accumulated for it - inductive over all registration histories. _should_skip_hook and the four apply loops carry their own contracts.")
